@@ -30,6 +30,7 @@ const (
 	JNull
 	JBad
 	JBytes
+	JTrail // elems[0] followed by trailing non-whitespace bytes: a syntax error for Unmarshal, one value for a Decoder
 )
 
 type JNode struct {
@@ -72,7 +73,7 @@ func (n *JNode) concrete(ex *Exec) bool {
 	case JBytes:
 		_, ok := ex.strConcrete(ex.byteSliceToStr(n.bytes))
 		return ok && n.bytes.abs == nil
-	case JBad:
+	case JBad, JTrail:
 		return false
 	}
 	return true
@@ -226,7 +227,7 @@ func (ex *Exec) parseJSONValue(dec *json.Decoder) (*JNode, error) {
 // its concrete text. ok=false means a syntax error; unsupported if the bytes are symbolic.
 func (ex *Exec) nodeOfBytes(sl Slice) (*JNode, bool) {
 	if n, ok := sl.abs.(*JNode); ok {
-		if n.kind == JBad {
+		if n.kind == JBad || n.kind == JTrail {
 			return nil, false
 		}
 		return n, true
@@ -1014,6 +1015,86 @@ func init() {
 		}
 		return r
 	})
+	// json.NewDecoder(r).Decode(v): the first JSON value of the reader's bytes; what follows it is left unread.
+	// The decoder object is a cell holding the reader and the number of values decoded so far.
+	reg("encoding/json.NewDecoder", func(ex *Exec, fn *ssa.Function, a []Value) Value {
+		cell := new(Value)
+		*cell = Struct{a[0], ex.tc.BV(0, 64)}
+		return cell
+	})
+	reg("(*encoding/json.Decoder).Decode", func(ex *Exec, fn *ssa.Function, a []Value) Value {
+		cell := a[0].(*Value)
+		st := (*cell).(Struct)
+		rd := st[0].(Iface)
+		used := st[1].(*Term).val
+		var data Slice
+		got := false
+		if rd.t != nil {
+			switch rd.t.String() {
+			case "*bytes.Reader":
+				if p, ok := rd.v.(*Value); ok && p != nil {
+					data, got = (*p).(Struct)[0].(Slice), true
+				}
+			case "*strings.Reader":
+				if p, ok := rd.v.(*Value); ok && p != nil {
+					data, got = ex.strToByteSlice((*p).(Struct)[0].(Str)), true
+				}
+			}
+		}
+		if !got {
+			ex.unsupported("json.Decoder over a reader other than *bytes.Reader / *strings.Reader")
+		}
+		*cell = Struct{st[0], ex.tc.BV(used+1, 64)}
+		var n *JNode
+		if an, ok := data.abs.(*JNode); ok {
+			switch {
+			case an.kind == JBad:
+				return ex.jsonSyntaxError()
+			case an.kind == JTrail && used == 0:
+				n = an.elems[0]
+			case used > 0:
+				if an.kind == JTrail {
+					return ex.jsonSyntaxError() // the trailing bytes are not a value
+				}
+				return ex.errorString(mkStr("EOF"))
+			default:
+				n = an
+			}
+		} else {
+			text, ok := ex.strConcrete(ex.byteSliceToStr(data))
+			if !ok {
+				ex.unsupported("json.Decoder over symbolic bytes that carry no abstract document")
+			}
+			dec := json.NewDecoder(strings.NewReader(text))
+			dec.UseNumber()
+			for i := uint64(0); i <= used; i++ {
+				v, err := ex.parseJSONValue(dec)
+				if err != nil {
+					if err.Error() == "EOF" {
+						return ex.errorString(mkStr("EOF"))
+					}
+					return ex.jsonSyntaxError()
+				}
+				n = v
+			}
+		}
+		target := a[1].(Iface)
+		if target.t == nil {
+			return ex.jsonErr("Unmarshal(nil)")
+		}
+		pt, isPtr := target.t.Underlying().(*types.Pointer)
+		if !isPtr || target.v.(*Value) == nil {
+			return ex.jsonErr("Unmarshal(non-pointer or nil)")
+		}
+		dst := &jsonDecState{}
+		if err := ex.jsonDecode(n, target.v.(*Value), pt.Elem(), dst); err != nil {
+			return err
+		}
+		if dst.saved != nil {
+			return dst.saved
+		}
+		return Iface{}
+	})
 	reg("encoding/json.Valid", func(ex *Exec, fn *ssa.Function, a []Value) Value {
 		_, ok := ex.nodeOfBytes(a[0].(Slice))
 		return ex.tc.Bool(ok)
@@ -1054,10 +1135,13 @@ func init() {
 	reg(vr+"JBool", func(ex *Exec, fn *ssa.Function, a []Value) Value { return wrap(&JNode{kind: JBool, b: a[0].(*Term)}) })
 	reg(vr+"JNull", func(ex *Exec, fn *ssa.Function, a []Value) Value { return wrap(&JNode{kind: JNull}) })
 	reg(vr+"JBad", func(ex *Exec, fn *ssa.Function, a []Value) Value { return wrap(&JNode{kind: JBad}) })
+	reg(vr+"JTrailing", func(ex *Exec, fn *ssa.Function, a []Value) Value {
+		return wrap(&JNode{kind: JTrail, elems: []*JNode{unwrap(a[0])}})
+	})
 	reg(vr+"JBytesVal", func(ex *Exec, fn *ssa.Function, a []Value) Value { return wrap(&JNode{kind: JBytes, bytes: a[0].(Slice)}) })
 	reg(vr+"JSONBytes", func(ex *Exec, fn *ssa.Function, a []Value) Value {
 		n := unwrap(a[0])
-		if n.kind == JBad {
+		if n.kind == JBad || n.kind == JTrail {
 			ex.absSeq++
 			ln := ex.tc.Var(fmt.Sprintf("jsonlen#%d", ex.absSeq), 64)
 			ex.assume(ex.tc.And(ex.tc.Ule(ex.tc.BV(1, 64), ln), ex.tc.Ule(ln, ex.tc.BV(1<<20, 64))))
